@@ -376,6 +376,47 @@ func c19ReqSeq(r *rand.Rand, dir, fname string) fw.Outcome {
 		return
 	}
 	n := 2 + r.Intn(3)
+	// (a) the raw results of several reads are kept and turned into assignments afterwards
+	{
+		var raws []types.ProofWithPublicInputsRaw
+		var gens []*docGen
+		for i := 0; i < n; i++ {
+			doc, g, _ := genProofDoc(r)
+			raw, _ := json.Marshal(doc)
+			ok := true
+			func() {
+				defer func() {
+					if rr := recover(); rr != nil {
+						ok = false
+					}
+				}()
+				raws = append(raws, types.ReadProofWithPublicInputsFromRequest(raw))
+			}()
+			if !ok {
+				return fw.Violate("wellformed_document_refused", fmt.Sprintf("request read #%d of a sequence", i))
+			}
+			gens = append(gens, g)
+		}
+		for i := range raws {
+			var p variables.ProofWithPublicInputs
+			ok := true
+			func() {
+				defer func() {
+					if rr := recover(); rr != nil {
+						ok = false
+					}
+				}()
+				p, _ = variables.DeserializeProofWithPublicInputs(raws[i])
+			}()
+			if !ok {
+				return fw.Violate("earlier_result_changed_by_later_read:unusable", fmt.Sprintf("raw result of request read #%d of %d cannot be turned into an assignment after the later reads", i, n))
+			}
+			if k, d := c19CompareProof(&p, gens[i]); k != "" {
+				return fw.Violate("earlier_result_changed_by_later_read:"+k, fmt.Sprintf("raw result of request read #%d of %d, turned into an assignment after the later reads: %s", i, n, d))
+			}
+			o.Events += len(gens[i].expected)
+		}
+	}
 	var reads []rd
 	for i := 0; i < n; i++ {
 		doc, g, _ := genProofDoc(r)
@@ -422,9 +463,30 @@ func c19ReqSeq(r *rand.Rand, dir, fname string) fw.Outcome {
 		if !res.ok {
 			return
 		}
+		// the values read, position by position (a missing value is recorded as such)
+		for _, l := range circ.Leaves(&vd) {
+			v := l.Get()
+			if v == nil {
+				res.vals = append(res.vals, big.NewInt(-1))
+				continue
+			}
+			if bi, ok := v.(*big.Int); ok && bi == nil {
+				res.vals = append(res.vals, big.NewInt(-1))
+				continue
+			}
+			func() {
+				defer func() {
+					if rr := recover(); rr != nil {
+						res.vals = append(res.vals, big.NewInt(-2))
+					}
+				}()
+				res.vals = append(res.vals, l.Big())
+			}()
+		}
 		a := &verifier.VerifierCircuit{VerifierData: vd, PublicInputs: []gl.Variable{}}
-		vals, err := witnessGuard(a)
-		res.vals, res.werr = vals, err != nil
+		a.Proof.OpeningProof.PowWitness = gl.NewVariable(0)
+		_, err := witnessGuard(a)
+		res.werr = err != nil
 		return
 	}
 	for i, v := range variants {
